@@ -211,10 +211,24 @@ Boundary == {<<"2","1","4","7","4","8","3","6","4","7","s">>, <<"2","1","4","7",
              <<"3","5","5","0","w">>, <<"3","5","5","1","w">>, <<"6","8","y">>, <<"6","9","y">>,
              <<"9","9","9","9","9","9","9","9","9","9","9","s">>, <<"4","2","9","4","9","6","7","2","9","7","s">>,
              <<"+","1","s">>, <<"1"," ","s">>, <<"1","S">>, <<"1",".","5","s">>, <<"1","0","0","0","0","0","y">>}
+\* archive strings "step:retention" built from a small set of duration pieces (incl. one-point archives, a zero,
+\* a retention that is no multiple, malformed pieces) and two-element lists of them
+DurPieces == {<<"1","s">>, <<"2","s">>, <<"0","s">>, <<"1","0","s">>, <<"6","0","s">>, <<"1","m">>, <<"2","m">>, <<"9","0","s">>,
+              <<"1","h">>, <<"1","d">>, <<"1","w">>, <<"1","y">>, <<"6","8","y">>, <<"6","9","y">>, <<"1">>, <<"s">>, <<>>, <<"-","1","s">>}
+ArchStrings == {a \o <<":">> \o b : a \in DurPieces, b \in DurPieces} \cup DurPieces \cup {<<"1","s",":","2","s",":","4","s">>}
+ArchView(s) == LET r == ParseArchiveList(s) IN IF r.ok THEN r.l ELSE <<>>
+\* the real retention-string parser also applies the list rules of C07: accepted = syntax ok and a valid layout
+Fmt == INSTANCE WhisperFormat WITH Deep <- FALSE, Export <- "none", dummy <- 0
+ArchAccepted(s) == LET r == ParseArchiveList(s) IN r.ok /\ Fmt!ValidLayout(r.l)
+ListPieces == {<<"1","s",":","1","s">>, <<"1","s",":","2","s">>, <<"1","m",":","1","h">>, <<"1","s",":","3">>, <<>>}
 ExportStrings ==
   IF Export = "strings"
-  THEN \A s \in Strings \cup Boundary :
-         PrintT(ToJson([kind |-> "dur", s |-> s, v |-> ParseDuration(s), open |-> LeadingZero(s)]))
+  THEN /\ \A s \in Strings \cup Boundary :
+            PrintT(ToJson([kind |-> "dur", s |-> s, v |-> ParseDuration(s), open |-> LeadingZero(s)]))
+       /\ \A s \in ArchStrings : PrintT(ToJson([kind |-> "arch", s |-> s, ok |-> ArchAccepted(s), l |-> ArchView(s)]))
+       /\ \A a \in ListPieces, b \in ListPieces :
+            LET s == a \o <<",">> \o b IN PrintT(ToJson([kind |-> "arch", s |-> s, ok |-> ArchAccepted(s), l |-> ArchView(s)]))
+       /\ \A l \in LayoutDom : PrintT(ToJson([kind |-> "lay", l |-> l, s |-> PrintArchiveList(l), ok |-> Fmt!ValidLayout(l)]))
   ELSE TRUE
 
 StrCount == PrintT(<<"TEXT_CASES", Cardinality(Strings) + Cardinality(Boundary), Cardinality(DayDom) * Cardinality(SodDom),
